@@ -4,6 +4,7 @@ import (
 	"fmt"
 	"go/token"
 	"go/types"
+	"sort"
 	"strings"
 
 	"golang.org/x/tools/go/ssa"
@@ -766,4 +767,237 @@ func propagatesAllUnbound(w *World, fn *ssa.Function) bool {
 		}
 	}
 	return ok
+}
+
+// ---------- R8.8: who may write the unit bindings of a certificate problem ----------
+
+func ruleR8_8(w *World, r *Report) {
+	r.Rule("R8.8", "the unit bindings of an existing explain.Problem are written only by the propagation method and by the RUP test that restores them; other functions write bindings only into a problem they are building", 2)
+	rup := rupTest(w)
+	if rup == nil {
+		r.Unk("R8.8", "RUP test", "-", "not found")
+		return
+	}
+	var prop *ssa.Function
+	for _, ci := range callsIn(rup) {
+		for _, c := range w.Callees[ci] {
+			if w.PkgName(c) == "explain" && c.Signature.Recv() != nil && w.effects().WritesAny(c, "explain.Problem.units") {
+				prop = c
+			}
+		}
+	}
+	if prop == nil {
+		r.Unk("R8.8", "propagation method", "-", "the RUP test calls no method that writes units")
+		return
+	}
+	fresh := func(base ssa.Value) bool {
+		for i := 0; i < 4; i++ {
+			switch x := base.(type) {
+			case *ssa.Alloc:
+				return true
+			case *ssa.UnOp:
+				if al, ok := x.X.(*ssa.Alloc); ok && x.Op == token.MUL {
+					// a local pointer cell: every store into it is a fresh allocation
+					all := true
+					for _, ref := range *al.Referrers() {
+						if st, ok := ref.(*ssa.Store); ok && st.Addr == ssa.Value(al) {
+							if _, isAl := st.Val.(*ssa.Alloc); !isAl {
+								all = false
+							}
+						}
+					}
+					return all
+				}
+				return false
+			case *ssa.Phi:
+				for _, e := range x.Edges {
+					if _, isAl := e.(*ssa.Alloc); !isAl {
+						return false
+					}
+				}
+				return true
+			default:
+				return false
+			}
+		}
+		return false
+	}
+	// buildingOnly: the problem written is one the function allocated, or a parameter that every caller (recursively)
+	// fills with a problem it allocated (the parser's helper methods)
+	var buildingOnly func(fn *ssa.Function, base ssa.Value, depth int) bool
+	buildingOnly = func(fn *ssa.Function, base ssa.Value, depth int) bool {
+		if fresh(base) {
+			return true
+		}
+		p, ok := base.(*ssa.Parameter)
+		if !ok || depth > 3 {
+			return false
+		}
+		if fn.Object() != nil && fn.Object().Exported() {
+			return false
+		}
+		pi := paramIndex(fn, p)
+		callers := w.Callers[fn]
+		if pi < 0 || len(callers) == 0 {
+			return false
+		}
+		for _, site := range callers {
+			args := site.Common().Args
+			if pi >= len(args) || !buildingOnly(site.Parent(), args[pi], depth+1) {
+				return false
+			}
+		}
+		return true
+	}
+	for _, fn := range w.Fns {
+		if w.PkgName(fn) != "explain" {
+			continue
+		}
+		var sites []string
+		foreign := false
+		allInstrs(fn, func(ins ssa.Instruction) {
+			st, ok := ins.(*ssa.Store)
+			if !ok {
+				return
+			}
+			var base ssa.Value
+			if ia, ok := st.Addr.(*ssa.IndexAddr); ok {
+				b, isU := isFieldLoad(ia.X, "explain.Problem", "units")
+				if !isU {
+					return
+				}
+				base = b
+			} else if o, f, b, ok := fieldOf(st.Addr); ok && o == "explain.Problem" && f == "units" {
+				base = b
+			} else {
+				return
+			}
+			sites = append(sites, w.InstrPos(st))
+			if !buildingOnly(fn, base, 0) {
+				foreign = true
+			}
+		})
+		if len(sites) == 0 {
+			continue
+		}
+		key := w.FuncName(fn) + " writes unit bindings"
+		switch {
+		case fn == prop || fn == rup:
+			r.OK("R8.8", key, sites[0], "the propagation method / the RUP test that restores the bindings")
+		case !foreign:
+			r.OK("R8.8", key, sites[0], "only into a problem under construction (allocated here or by every caller)")
+		default:
+			r.Bad("R8.8", key, sites[0], "unit bindings of a problem that already exists are written outside the propagation method and the restoring RUP test (at "+strings.Join(sites, ", ")+"): the binding survives the call, so a later check or MUS extraction on the same problem starts from facts that are not unit clauses of the problem (clauses deriving them are never tagged)")
+		}
+	}
+}
+
+// ---------- R8.9: the propagation loop skips a clause only when it is marked satisfied ----------
+
+func ruleR8_9(w *World, r *Report) {
+	r.Rule("R8.9", "in the propagation method of explain.Problem, an iteration over the clause list goes on to the next clause without reading the clause's literals only under a true entry of the local table of clauses already found satisfied", 1)
+	rup := rupTest(w)
+	if rup == nil {
+		r.Unk("R8.9", "RUP test", "-", "not found")
+		return
+	}
+	var prop *ssa.Function
+	for _, ci := range callsIn(rup) {
+		for _, c := range w.Callees[ci] {
+			if w.PkgName(c) == "explain" && c.Signature.Recv() != nil && w.effects().WritesAny(c, "explain.Problem.units") {
+				prop = c
+			}
+		}
+	}
+	if prop == nil {
+		r.Unk("R8.9", "propagation method", "-", "the RUP test calls no method that writes units")
+		return
+	}
+	// outer loop: its body reads pb.Clauses[i]; inner loop: nested, reads the literals of that element
+	var outer, inner *ssa.BasicBlock
+	var clauseElem ssa.Value
+	heads := loopHeaders(prop)
+	for _, h := range heads {
+		body := loopBlocks(prop, h)
+		for b := range body {
+			for _, ins := range b.Instrs {
+				ia, ok := ins.(*ssa.IndexAddr)
+				if !ok {
+					continue
+				}
+				if _, isC := isFieldLoad(ia.X, "explain.Problem", "Clauses"); isC {
+					if outer == nil || len(body) < len(loopBlocks(prop, outer)) {
+						outer = h
+						for _, ref := range *ia.Referrers() {
+							if u, ok := ref.(*ssa.UnOp); ok && u.Op == token.MUL {
+								clauseElem = u
+							}
+						}
+					}
+				}
+			}
+		}
+	}
+	if outer == nil || clauseElem == nil {
+		r.Unk("R8.9", w.FuncName(prop)+" clause loop", w.Pos(prop.Pos()), "no loop reading pb.Clauses[i] found")
+		return
+	}
+	obody := loopBlocks(prop, outer)
+	for _, h := range heads {
+		if h == outer || !obody[h] {
+			continue
+		}
+		for b := range loopBlocks(prop, h) {
+			for _, ins := range b.Instrs {
+				if ia, ok := ins.(*ssa.IndexAddr); ok && ia.X == clauseElem {
+					inner = h
+				}
+			}
+		}
+	}
+	if inner == nil {
+		r.Unk("R8.9", w.FuncName(prop)+" clause loop", w.Pos(prop.Pos()), "no nested loop over the literals of the clause found")
+		return
+	}
+	key := w.FuncName(prop) + " examines every clause not yet satisfied"
+	var bad []string
+	n := 0
+	for _, p := range outer.Preds {
+		if !obody[p] || inner.Dominates(p) {
+			continue
+		}
+		n++
+		justified := false
+		conds := dominatingConds(p)
+		if iff, ok := p.Instrs[len(p.Instrs)-1].(*ssa.If); ok {
+			// the jump is the branch itself (empty `continue` blocks are fused away)
+			if p.Succs[0] == outer && p.Succs[1] != outer {
+				conds = append(conds, edgeCond{Cond: iff.Cond, True: true})
+			} else if p.Succs[1] == outer && p.Succs[0] != outer {
+				conds = append(conds, edgeCond{Cond: iff.Cond, True: false})
+			}
+		}
+		for _, ec := range conds {
+			ld, ok := ec.Cond.(*ssa.UnOp)
+			if !ok || ld.Op != token.MUL || !ec.True {
+				continue
+			}
+			ia, ok := ld.X.(*ssa.IndexAddr)
+			if !ok {
+				continue
+			}
+			if _, isMk := ia.X.(*ssa.MakeSlice); isMk && typeShort(ia.X.Type()) == "[]bool" {
+				justified = true
+			}
+		}
+		if !justified {
+			bad = append(bad, w.InstrPos(p.Instrs[len(p.Instrs)-1]))
+		}
+	}
+	if len(bad) > 0 {
+		sort.Strings(bad)
+		r.Bad("R8.9", key, bad[0], "the loop goes on to the next clause without looking at the literals of the current one, and not because it is marked satisfied (jump at "+strings.Join(bad, ", ")+"): a clause falsified or made unit by the bindings is ignored, so derivable lines are rejected (or conflicts missed)")
+	} else {
+		r.OK("R8.9", key, w.Pos(prop.Pos()), fmt.Sprintf("%d skip edge(s), each under the satisfied-table", n))
+	}
 }
